@@ -14,6 +14,11 @@
 //	           command runs
 //	phase 6    CALL re-runs the % phase on its (already expanded) arguments
 //
+// External programs are not part of the model. A caller may install a hook that models them (Options.External,
+// rule 12 in external.go): then `call PROGRAM args`, pipes between programs and the capture helper's
+// `for /f ... in ('cmd /V:ON /C "..."')` are interpreted for cmd-neutral command lines; without the hook all of
+// that is unmodelled.
+//
 // Everything the model is not sure about makes the run "unmodelled" (Result.Unmodelled names the
 // rule); it never guesses. Things cmd.exe itself would complain about (missing label, division by
 // zero, unbalanced parenthesis, for /f over a missing file) are reported in Result.Error: they are
@@ -42,6 +47,10 @@ type Options struct {
 	Stdin    string            // not consumed by any modelled command (set /p is unmodelled)
 	MaxSteps int               // default 2e6
 	Files    map[string]string // virtual file system: path -> content, mutated by the run
+	// External, if set, models external programs (rule 12, external.go): call PROGRAM, pipes between
+	// programs and the capture helper's  for /f ... in ('cmd /V:ON /C "..."')  are then interpreted for
+	// cmd-neutral command lines instead of being unmodelled. Nil: the model behaves exactly as without it.
+	External External
 }
 
 // Result is the observation of one run.
@@ -54,6 +63,8 @@ type Result struct {
 	// StrayParens counts executed lines that start with ')' outside any block (rule 6: they act like REM);
 	// the converter's structure never lets execution reach one, so a non-zero count is worth reporting
 	StrayParens int
+	// Externals counts the programs started through Options.External
+	Externals int
 }
 
 const defaultMaxSteps = 2_000_000
@@ -111,6 +122,10 @@ type interp struct {
 	ambiguous bool // an endlocal ran in a called frame that had no setlocal of its own
 
 	strayParens int // executed ')' lines outside any block
+
+	external  External // rule 12 hook (nil: external programs are unmodelled)
+	externals int
+	stdin     string
 }
 
 // Run interprets script under the model.
@@ -170,6 +185,8 @@ func runOnce(script string, o Options, endlocalB bool) (rr runResult) {
 		echoOn:    true,
 		forVars:   map[byte]string{},
 		endlocalB: endlocalB,
+		external:  o.External,
+		stdin:     o.Stdin,
 	}
 	if in.maxSteps <= 0 {
 		in.maxSteps = defaultMaxSteps
@@ -184,6 +201,7 @@ func runOnce(script string, o Options, endlocalB bool) (rr runResult) {
 		rr.Stdout = in.out.String()
 		rr.Steps = in.steps
 		rr.StrayParens = in.strayParens
+		rr.Externals = in.externals
 		rr.ambiguous = in.ambiguous
 		if x := recover(); x != nil {
 			a, ok := x.(abort)
